@@ -251,6 +251,9 @@ def stringPart (ps : List Prm) (val : GoVal) (f : Bytes → Nat → Bytes) : Out
     | .str false s => okStr (f s n)
     | _ => .err
 
+/-- the range of the exponent of a decimal.Decimal (an int32) -/
+def inI32 (e : Int) : Bool := decide (-2147483648 ≤ e) && decide (e ≤ 2147483647)
+
 /-- the functions that need neither the evaluator nor an external engine -/
 def pureFunc (name : String) (ps : List Prm) (val : GoVal) : Option Out :=
   let decBool (f : Ordering → Bool) : Out :=
@@ -268,12 +271,12 @@ def pureFunc (name : String) (ps : List Prm) (val : GoVal) : Option Out :=
     | _, .dec _ => okBool false
     | p, v => okBool (goEq v p)
   let neg (o : Out) : Out := match o with | .ok (.bool _ b) => okBool (!b) | o => o
-  let decOp (f : Dec → Dec → Dec) (guardZero : Bool) : Out :=
+  let decOp (f : Dec → Dec → Dec) (guardZero : Bool) (inRange : Dec → Dec → Bool) : Out :=
     match firstOfNumber ps with
     | none => .err
     | some p =>
       if guardZero && p.isZero then .err else
-      match val with | .dec d => okDec (f d p) | _ => .err
+      match val with | .dec d => if inRange d p then okDec (f d p) else .err | _ => .err
   let count0 : Bool := ps.isEmpty
   let isNull := isNilVal val
   let isEmpty := match val with | .nil => true | v => cmpZero v
@@ -336,11 +339,11 @@ def pureFunc (name : String) (ps : List Prm) (val : GoVal) : Option Out :=
   | "Minimum" => some (decimalSlice ps val Dec.minL)
   | "Maximum" => some (decimalSlice ps val Dec.maxL)
   | "AsArray" => some (.ok (.slice true false [val]))
-  | "Add" => some (decOp Dec.add false)
-  | "Subtract" => some (decOp Dec.sub false)
-  | "Multiply" => some (decOp Dec.mul false)
-  | "Divide" => some (decOp Dec.div true)
-  | "Modulo" => some (decOp Dec.mod true)
+  | "Add" => some (decOp Dec.add false (fun _ _ => true))
+  | "Subtract" => some (decOp Dec.sub false (fun _ _ => true))
+  | "Multiply" => some (decOp Dec.mul false (fun d p => inI32 (d.exp + p.exp)))   -- the decimal type holds its exponent in 32 bits: a product outside that range is an error
+  | "Divide" => some (decOp Dec.div true (fun _ _ => true))
+  | "Modulo" => some (decOp Dec.mod true (fun _ _ => true))
   | "AnyOf" => some (
       let all := prmAll ps
       let rec go : List Prm → Bool
